@@ -1,6 +1,6 @@
 CFG = P(
     "c13",
-    model_is_spec=["retry"],
+    model_is_spec=[],
     partial=[
         "split_independent is false of the tree (finding tcp-split-interior-blank-line): proved under 'no interior segment boundary looks like an end of response' (split_independent_partial) and for the two practical shapes (no interior blank line; first segment already recognised as MIME)",
         "ttl_end_refetch is false of the tree for a second client on the same cache directory (finding cache-ttl-lost-new-client): proved for the client that stored the answer (ttl_end_refetch_partial)",
